@@ -185,6 +185,36 @@ class Hom:
         return None
 
 
+
+def state_uses(term, atom):
+    """Operators that consume the (pytree) state ``atom`` directly: the helpers may only flatten it as a whole or hand it to the vector field."""
+    uses = []
+
+    def direct(v):
+        if v is atom:
+            return True
+        if isinstance(v, (list, tuple)):
+            return any(direct(x) for x in v)
+        return False
+
+    for t in T.subterms(term):
+        if isinstance(t, T.Term) and t.op != "atom":
+            if any(direct(a) for a in t.args) or any(direct(a) for a in t.kwargs.values()):
+                uses.append(t)
+    return uses
+
+
+def whole_state_obligation(rule, fname, out, atom, where):
+    uses = state_uses(out, atom)
+    bad = [u for u in uses if not (u.op in ("tree.ravel", "unravel_of") or (u.op == "mcall" and len(u.args) > 1 and u.args[1] == "vector_field"))]
+    rule.require(bool(uses) and not bad, f"{fname} consumes the whole pytree state", "the state is flattened as a whole (tree.ravel) or handed to the vector field; never indexed or split into leaves",
+                 f"the state is consumed through {sorted({u.op for u in bad})}: {[T.show(u, 3) for u in bad[:2]]} -- a multi-leaf state would be measured by one leaf only", where_of(bad[0], where) if bad else where)
+    norms = [t for t in T.subterms(out) if isinstance(t, T.Term) and t.op == "linalg.vector_norm"]
+    for n in norms:
+        kw = {k: v for k, v in n.kwargs.items() if k in ("order", "axis")}
+        rule.require(not kw or all(v is None for v in kw.values()), f"{fname} norm {T.show(n, 2)}", "2-norm over all components", f"norm with options {kw}", where_of(n, where))
+
+
 def run(chk, S: Session):
     chk.assume("atol > 0, rtol >= 0, scale > 0, nugget > 0, error_contraction_rate >= 1, finite inputs")
     chk.trust("linalg.vector_norm(x) >= 0", "np.where(c, a, b) selects a where c holds and b elsewhere", "np.abs(x) >= 0")
@@ -218,6 +248,7 @@ def run(chk, S: Session):
     r2.require(bool(g), "dt0 rejects jet-lifted fields", "ValueError guard on vf.is_jet_lifted passed on every path", f"guards passed: {[T.show(x['cond'], 3) for x in it.cur_guards]}", where)
     vfc = mcalls(out, "vector_field", vf)
     r2.require(len(vfc) == 1 and vfc[0].kwargs.get("t") is A("t0"), "dt0 evaluates f at (u0, t0)", "one vector-field evaluation with the caller's kwargs", f"{[T.show(v, 3) for v in vfc]}", where)
+    whole_state_obligation(r2, "dt0", out, A("u0"), where)
     chk.sample({"function": "dt0", "value": T.show(out, 6), "interval": str(iv)})
     S.absorb(it)
 
@@ -276,6 +307,7 @@ def run(chk, S: Session):
         r3.fail(f"dt0_adaptive homogeneity at {t.op}", msg + " -- the proposal changes when the problem is rescaled (y, f, atol) -> (c y, c f, c atol)", where_of(t, where))
     r3.require(True if d_out in (0,) else (None if d_out is None else False), "dt0_adaptive returned step is free of the state unit", f"degree {d_out}",
                f"returned step has degree {d_out} in the state unit" + (f" (not derived: {hom.unknown[:3]})" if d_out is None else ""), where)
+    whole_state_obligation(r2, "dt0_adaptive", out, A("y0"), where)
     # several initial values are rejected
     it2 = S.interp()
     f2 = it2.function_value(f"{STEPINIT}.dt0_adaptive")
